@@ -48,8 +48,11 @@ def heat(dgm1, dgm2, sigma=0.4):
         heat kernel distance between dgm1 and dgm2
 
     """
-    return np.sqrt(
+    # the kernel is positive definite, so the squared norm is non-negative in
+    # exact arithmetic; rounding can leave it a few ulps below zero
+    squared_dist = (
         evalHeatKernel(dgm1, dgm1, sigma)
         + evalHeatKernel(dgm2, dgm2, sigma)
         - 2 * evalHeatKernel(dgm1, dgm2, sigma)
     )
+    return np.sqrt(np.maximum(squared_dist, 0))
